@@ -69,7 +69,8 @@ std::istream& operator>>(std::istream& _istr, std::vector< bool >& _rhs)
     size_t size;
     _istr >> size;
     _rhs.resize(size);
-    for (size_t i=0; i<size; i++)
+    // stop at the first failed extraction: the declared size is untrusted input
+    for (size_t i=0; i<size && _istr; i++)
     {
         bool b;
         _istr >> b;
